@@ -132,6 +132,35 @@ claim('C01',
       'bounded exhaustive enumeration of network shapes with deviation bounding against an independent AC reference',
       'DESIGN.md#c01')
 
+claim('C02',
+      'Every one of the 97 shipped models: every generated function actually loaded from the pycode on disk (f_update, '
+      'g_update, sequential services, the non-sequential batch, explicit and iterative initialisers) is called on a lattice '
+      '(generic distinct values per argument x a covering design of all discrete inputs: limiter triples, LessThan pairs, '
+      'switchers, numeric config switches, dae_t; default + all single deviations + all pairs when affordable) and compared '
+      'element by element with the declared string evaluated by an independent evaluator; the real f_update/g_update are '
+      'run so each value is read back from the equation array of the declaring variable. Regeneration into a second '
+      'fresh home is compared per model. The staleness protocol is explored as operation sequences (model variants x '
+      'file states x constructions) on a private pycode tree.',
+      'Trusts vmc/refs/expr.py (python eval + function vocabulary); lattice, not all points; generator changes that keep the '
+      'model md5 are caught by the values part because every check regenerates pycode from the current tree.',
+      'exhaustive enumeration of models x functions x discrete-input covering design against an independent evaluator; '
+      'explicit-state exploration of the code-cache protocol',
+      'DESIGN.md#c02')
+
+claim('C03',
+      'Symbolic level: every generated Jacobian element and iterative-init Jacobian of every model is compared on the '
+      'lattice with a Richardson central difference of the independently evaluated equation string (never across a '
+      'breakpoint), the matrix name must match row/column kinds, and every (equation, variable) pair absent from the '
+      'triplet list must have zero derivative. Assembled level: 10 stock systems x status patterns (each of the first '
+      'lines / loads / generators off, leaf-bus isolation, pairs in thorough) x ipadd x both addressing phases x 5 operating '
+      'points: dae.fx/fy/gx/gy entry-wise against finite differences of the assembled residual, non-zeros inside the stored '
+      'pattern, pattern stable across updates, in-place = rebuilt accumulation.',
+      'Rows of models with VarService / numeric hooks, anti-windup-pegged states and neutralised isolated-bus rows are not '
+      'closed-form and are skipped; limiter kinks accept either one-sided derivative.',
+      'exhaustive enumeration of models x Jacobian entries x lattice, and systems x status x operating points, against '
+      'finite differences',
+      'DESIGN.md#c03')
+
 _PENDING = 'check not built yet in this round; planned per DESIGN.md (bounded exhaustive exploration applies)'
 for _p in ALL:
     if _p not in CLAIMED:
